@@ -8,8 +8,12 @@ a unique marker token zqx<N>k) are sent over all services; an interpreter audit 
 while a request is in flight) records every file-system event, resolves its path the way the kernel would (realpath of
 the parent + basename, plus the fully followed path for calls that follow a final symlink) and the oracle judges each
 request:  a mutating event inside the jail or on a marker path but outside the roots, or any event at all (reads,
-listdir) on a marker path / decoy outside the roots, is a violation.  Afterwards the whole jail outside the roots is
-compared byte by byte with a snapshot taken before the first request.
+listdir) on a marker path / decoy outside the roots, is a violation.  The judged area is the jail plus everything around
+it up to the shard's private scratch directory (marker-less traversals of up to 8 levels end there); paths elsewhere are
+judged only if they carry a marker.  Afterwards the whole jail outside the roots is compared byte by byte with a
+snapshot taken before the first request, and the directories above the jail are checked for stray entries.  A few cases
+per run are repeated in a short-lived server process under `strace -f -e trace=%file`: every file system call the kernel
+saw on a jail/marker path must have been seen by the audit hook as well (validation of the monitor itself).
 """
 import hashlib
 import io
@@ -22,7 +26,6 @@ import stat
 import subprocess
 import sys
 import threading
-import time
 import urllib.parse
 import urllib.request
 from wsgiref.util import setup_testing_defaults
@@ -35,8 +38,20 @@ PID = 'C09'
 LEVEL = 'exploration'
 BUDGET_S = {'quick': 40, 'thorough': 600}
 FLOORS = {
-    'quick': {'requests': 1, 'audit_events_in_flight': 1},
-    'thorough': {'requests': 1, 'audit_events_in_flight': 1},
+    'quick': {'requests': 3700, 'marker_requests': 3200, 'audit_events_in_flight': 25000, 'mutating_events_checked': 18000,
+              'mutating_events_inside_roots': 18000, 'events_inside_roots': 19000, 'marker_events_checked': 4000,
+              'control_images_served': 400, 'jail_snapshots_compared': 125, 'cases': 125, 'multiapp_cases': 30,
+              'requests_wms': 1400, 'requests_wms_fi': 60, 'requests_wms_legend': 60, 'requests_tms': 370, 'requests_tiles': 120,
+              'requests_kml': 120, 'requests_wmts_kvp': 570, 'requests_wmts_rest': 310, 'requests_demo': 240,
+              'requests_headers': 120, 'requests_multiapp': 300, 'strace_cases': 1, 'strace_paths_compared': 140,
+              'strace_mutating_paths_compared': 130},
+    'thorough': {'requests': 80000, 'marker_requests': 70000, 'audit_events_in_flight': 500000, 'mutating_events_checked': 400000,
+                 'mutating_events_inside_roots': 400000, 'events_inside_roots': 400000, 'marker_events_checked': 90000,
+                 'control_images_served': 9000, 'jail_snapshots_compared': 2800, 'cases': 2800, 'multiapp_cases': 750,
+                 'requests_wms': 30000, 'requests_wms_fi': 1300, 'requests_wms_legend': 1300, 'requests_tms': 8000,
+                 'requests_tiles': 2600, 'requests_kml': 2600, 'requests_wmts_kvp': 12500, 'requests_wmts_rest': 6900,
+                 'requests_demo': 5200, 'requests_headers': 2600, 'requests_multiapp': 7200, 'strace_cases': 4,
+                 'strace_paths_compared': 1400, 'strace_mutating_paths_compared': 1400},
 }
 RULE = ("case = one jail + one configuration variant (forward_req_params on/off, grid origin, WMTS REST template with or "
         "without dimension segments, single app or MultiMapProxy) driven by ~25 items; item = (vector, payload class, "
@@ -51,7 +66,10 @@ ASSUMPTIONS = [
     "an audit event fires before the system call: an attempted access of a request-controlled path outside the roots counts "
     "as touching it (it succeeds whenever the attacker-chosen target exists)",
     "reads of the configuration files themselves, of mapproxy's package data and of python/PIL/proj data are not judged; only "
-    "paths inside the jail and paths carrying a marker token are",
+    "paths inside the jail (and around it up to the shard's scratch directory) and paths carrying a marker token are",
+    "the strace cross-check requires strace-seen paths to be a subset of audit-seen paths (sqlite's own journal/wal/directory "
+    "opens next to an audited database are attributed to its sqlite3.connect event); audit events without a system call "
+    "(rejected before reaching the kernel) are only counted",
     "roots = realpath of globals.cache.base_dir, lock_dir and tile_lock_dir of the scenario; all caches use the default "
     "directories below base_dir",
     "upstream = synthetic NOISE WMS (vlib/upstream.py); urllib openers used by the demo service for http(s) are replaced by a "
@@ -362,7 +380,10 @@ def fill_decoy_dir(d, label, proj_yaml):
     for rel in DECOY_TILE_FILES:
         _write(os.path.join(d, rel), png)
     _write(os.path.join(d, 'SENTINEL.txt'), ('sentinel %s - must never be read, changed or removed\n' % label).encode())
-    _write(os.path.join(d, 'service'), b'<decoy-capabilities/>')
+    # what the demo service would fetch if its capabilities URL could be turned into a file:// URL
+    for rel in ('service?REQUEST=GetCapabilities&SERVICE=WMS', 'service?REQUEST=GetCapabilities&SERVICE=WMS&tiled=true',
+                'service?REQUEST=GetCapabilities&SERVICE=WMTS', 'wmts/1.0.0/WMTSCapabilities.xml', 'tms/1.0.0/decoylayer/decoysrs'):
+        _write(os.path.join(d, rel), b'<decoy-capabilities/>')
     for name in ('decoy.mbtiles', 'decoy.gpkg', '0.mbtile'):
         p = os.path.join(d, name)
         db = sqlite3.connect(p)
@@ -381,6 +402,7 @@ class Jail(object):
     def __init__(self, top):
         self.top = os.path.realpath(top)
         self.root = os.path.join(self.top, 'jail')
+        self.area = os.path.dirname(self.top)
         self.conf = os.path.join(self.root, 'a', 'b', 'c', 'conf')
         self.roots = [os.path.join(self.conf, n) for n in ('cache_data', 'locks', 'tile_locks')]
         self.projects = os.path.join(self.conf, 'projects')
@@ -409,7 +431,9 @@ class Jail(object):
         return False
 
     def in_jail(self, p):
-        return p == self.root or p.startswith(self.root + os.sep)
+        # judged area: the jail and everything around it up to the shard's scratch directory (nothing else is
+        # written there while a request is in flight); marker-less traversals of up to 8 levels end there
+        return p == self.area or p.startswith(self.area + os.sep)
 
     def is_config(self, p):
         return p in self.config_files or p == self.projects
@@ -951,9 +975,15 @@ def make_item(n, vector, pclass, layer, rng, variant):
                 {'X-Forwarded-Host': val, 'X-Script-Name': '/' + val},
                 {'X-Forwarded-Proto': 'file://@@JAIL@@/sib/service?' + M, 'X-Forwarded-Host': M},
                 {'X-Forwarded-Proto': 'FILE', 'X-Forwarded-Host': 'localhost', 'X-Script-Name': '@@JAIL@@/sib'},
+                {'X-Forwarded-Proto': 'file', 'X-Forwarded-Host': 'localhost', 'X-Script-Name': '@@JAIL@@/sib'},
+                {'X-Forwarded-Proto': 'file', 'X-Forwarded-Host': 'localhost', 'X-Script-Name': '@@CONF@@/sib'},
+                {'X-Forwarded-Proto': 'file', 'Host': 'localhost', 'X-Script-Name': '@@JAIL@@/a'},
                 {'X-Forwarded-Proto': 'ftp', 'X-Forwarded-Host': M},
             ])
-            reqs.append(R('/demo/', [(w, ''), ('type', 'external')], h=h))
+            pairs = [(w, ''), ('type', 'external')]
+            if w == 'tms_capabilities' and rng.random() < 0.7:
+                pairs += [('layer', 'decoylayer'), ('srs', 'decoysrs')]
+            reqs.append(R('/demo/', pairs, h=h))
     elif vector in ('header_script_name', 'header_forwarded_host'):
         hv = 'x' if valid else val.replace('\n', '')
         if vector == 'header_script_name':
@@ -1036,7 +1066,7 @@ def gen_items(run, i, variant):
 
 
 def gen_cases(run):
-    n = run.pick(36 * 16, 600 * 16)
+    n = run.pick(20 * 16, 450 * 16)
     # the strace cross-checks first (they take longest): one per shard for the first few shards
     for s in range(run.pick(2, 8)):
         yield {'i': 1000000 + 16 * s, 'strace': True, 'ncases': run.pick(2, 6)}
@@ -1072,7 +1102,7 @@ def judge_events(run, jail, events):
         if rp is None:
             run.count('events_unresolvable')
             if kind.startswith('process:'):
-                bad.append((kind, True, raw, None))
+                run.count('process_events_in_flight_not_judged')      # not a file access; the property is silent
             continue
         if mut:
             run.hit('mutating_events_checked')
@@ -1111,7 +1141,7 @@ def short(s, n=300):
     return s if len(s) <= n else s[:n // 2] + '...[%d chars]...' % len(s) + s[-n // 3:]
 
 
-def run_items(run, world, items, case, stop_on_violation=False):
+def run_items(run, world, items, case):
     jail = world.jail
     pfx = world.prefix
     flagged_paths = []
@@ -1169,8 +1199,6 @@ def run_items(run, world, items, case, stop_on_violation=False):
                 for b in bad:
                     if b[3]:
                         flagged_paths.append(b[3])
-                if stop_on_violation:
-                    return nviol, flagged_paths
     return nviol, flagged_paths
 
 
@@ -1227,10 +1255,31 @@ def cleanup_marker_paths(paths, keep_under):
                 break
 
 
+def resolver_selfcheck(run):
+    """the memoised resolver must agree with os.path.realpath (symlinks, dot segments, missing components)"""
+    d = os.path.realpath(run.subdir('rescheck'))
+    try:
+        os.makedirs(d + '/a/b')
+        os.makedirs(d + '/x/y')
+        os.symlink('../x', d + '/a/lnk')
+        os.symlink(d + '/a/b', d + '/x/abs')
+        os.symlink('nowhere', d + '/a/dangling')
+        rng = run.rng('rescheck')
+        names = ['a', 'b', 'x', 'y', 'lnk', 'abs', 'dangling', '..', '.', '', 'missing', 'time-..']
+        for _ in range(300):
+            p = d + '/' + '/'.join(rng.choice(names) for _ in range(rng.randint(1, 8)))
+            if RES.rdir(p) != os.path.realpath(p):
+                raise RuntimeError('resolver disagrees with realpath on %r: %r vs %r' % (p, RES.rdir(p), os.path.realpath(p)))
+        RES.clear()
+    finally:
+        shutil.rmtree(d, ignore_errors=True)
+
+
 def setup_shard(run):
     install_monitor()
     install_opener()
     upstream.install()
+    resolver_selfcheck(run)
 
 
 def run_case(run, case):
@@ -1277,7 +1326,7 @@ STRACE_MUT = {'mkdir', 'mkdirat', 'rename', 'renameat', 'renameat2', 'unlink', '
 STRACE_OPEN = {'open', 'openat', 'openat2'}
 STRACE_IGNORED = {'stat', 'lstat', 'newfstatat', 'fstatat64', 'statx', 'access', 'faccessat', 'faccessat2', 'readlink',
                   'readlinkat', 'getcwd', 'chdir', 'execve', 'statfs', 'getxattr', 'lgetxattr', 'listxattr', 'inotify_add_watch'}
-_CSTR = re.compile(r'"((?:[^"\\]|\\.)*)"')
+_CSTR = re.compile(r'"((?:[^"\\]|\\.)*)"(\.\.\.)?')
 _FDARG = re.compile(r'^(AT_FDCWD|\d+)(?:<([^>]*)>)?')
 
 
@@ -1318,7 +1367,8 @@ def parse_strace(path, begin_mark, end_mark):
             fm = _FDARG.match(args)
             if fm:
                 base = fm.group(2)
-            strs = [(mm.start(), _unescape(mm.group(1))) for mm in _CSTR.finditer(args)]
+            # strace caps path arguments at PATH_MAX and marks the cut with '...': such a call (ENAMETOOLONG) is skipped
+            strs = [(mm.start(), None if mm.group(2) else _unescape(mm.group(1))) for mm in _CSTR.finditer(args)]
             if name in ('rename', 'link', 'symlink'):
                 take = strs[:2]
             elif name in ('renameat', 'renameat2', 'linkat'):
@@ -1330,6 +1380,9 @@ def parse_strace(path, begin_mark, end_mark):
             if name == 'symlink':
                 take = strs[1:2]
             for _, sp in take:
+                if sp is None:
+                    skipped += 1
+                    continue
                 if not os.path.isabs(sp):
                     if base is None:
                         sp = None
@@ -1377,6 +1430,7 @@ def strace_child_main(spec_path, out_path):
     d['mon_errors'] = MON.errors
     with open(out_path, 'w') as f:
         json.dump(d, f, default=str)
+    run.cleanup()
 
 
 def run_strace_case(run, case):
@@ -1419,6 +1473,7 @@ def run_strace_case(run, case):
         run.merge(d)                        # the child's own judgements (same oracle) count as well
         calls, skipped = parse_strace(tp, spec['begin'], spec['end'])
         run.count('strace_syscalls_in_window', len(calls))
+        run.count('strace_calls_unclassified_or_truncated', skipped)
         jtop = os.path.realpath(top)
 
         def interesting(p):
@@ -1447,7 +1502,9 @@ def run_strace_case(run, case):
         RES.clear()
 
         def sqlite_side(p):
-            return any(p == q or (p.startswith(q) and p[len(q):] in ('-journal', '-wal', '-shm')) for q in a_sqlite)
+            # sqlite opens the database, its journal/wal files and (to fsync it) the containing directory in C
+            return any(p == q or p == os.path.dirname(q) or (p.startswith(q) and p[len(q):] in ('-journal', '-wal', '-shm'))
+                       for q in a_sqlite)
         # temp names of write_atomic / lock files are random but the audit hook must have seen the very same names
         miss_mut = sorted(p for p in s_mut if p not in a_mut and not sqlite_side(p))
         miss_any = sorted(p for p in s_all if p not in a_all and not sqlite_side(p))
